@@ -106,7 +106,53 @@ fn sign_raw(p: &Party, fragment: &str, payload: &[u8], opts: &JwsSignatureOption
 /// Names of the crash probes of C16: each runs in a CHILD process (see `core::batch`), because what it looks for - a
 /// stack overflow - is not a panic, cannot be caught and would take the simulator down with it.
 pub fn crash_probes(_tier: &str) -> Vec<String> {
-  vec!["disclosure-chain-128".to_owned(), "disclosure-chain-20000".to_owned()]
+  vec![
+    "disclosure-chain-128".to_owned(),
+    "disclosure-chain-20000".to_owned(),
+    "refusals-under-memory-limit-3000".to_owned(),
+  ]
+}
+
+/// Child-process side of the memory probe: ONE long-lived validator refuses the same issuer-signed SD-JWT `n` times,
+/// each time presented with one garbage disclosure of 1 MiB, while the address space of the process is limited to
+/// 1.5 GiB (setrlimit, what `ulimit -v` does). A verifier that keeps memory per refusal (n MiB in total) runs into the
+/// limit: a failed allocation is not an error value, the process aborts.
+fn run_memory_probe(name: &str) -> String {
+  let n: usize = name.rsplit('-').next().and_then(|n| n.parse().ok()).unwrap_or(3000);
+  let mut issuer = Party::new("issuer", false, 0);
+  let _ = issuer.gen_method("sign", Some(1));
+  let c = serde_json::json!({
+    "@context": "https://www.w3.org/2018/credentials/v1",
+    "id": "https://cred.example/sd/mem",
+    "type": ["VerifiableCredential", "SimSdCredential"],
+    "issuer": issuer.did,
+    "issuanceDate": crate::core::time::rfc3339(ctx::BASE_TIME - 10),
+    "credentialSubject": {"id": "did:sim:holder0", "name": "Holder"}
+  });
+  let cred = Credential::<Object>::from_json_value(c).expect("probe credential");
+  let payload = cred.serialize_jwt(None).expect("probe credential serialises");
+  let opts = JwsSignatureOptions::default().typ("sd-jwt".to_owned());
+  let jwt = sign_raw(&issuer, "sign", payload.as_bytes(), &opts).expect("issuer signs");
+  let issuer_doc: CoreDocument = issuer.doc.core().clone();
+  let limit = libc::rlimit {
+    rlim_cur: 1536 * 1024 * 1024,
+    rlim_max: 1536 * 1024 * 1024,
+  };
+  // SAFETY: plain system call on this (child) process, no memory is shared with it
+  if unsafe { libc::setrlimit(libc::RLIMIT_AS, &limit) } != 0 {
+    return "harness: setrlimit failed".to_owned();
+  }
+  let validator = SdJwtCredentialValidator::with_signature_verifier(EdDSAJwsVerifier::default(), SdObjectDecoder::new_with_sha256());
+  let garbage = "x".repeat(1024 * 1024);
+  let mut refused = 0usize;
+  for _ in 0..n {
+    let sd = SdJwt::new(jwt.clone(), vec![garbage.clone()], None);
+    match validator.validate_credential::<_, Object>(&sd, &issuer_doc, &JwtCredentialValidationOptions::default(), FailFast::FirstError) {
+      Ok(_) => return "accepted a garbage disclosure".to_owned(),
+      Err(_) => refused += 1,
+    }
+  }
+  format!("error: {refused} refusals, process within its memory limit")
 }
 
 /// Child-process side of a crash probe. An issuer signs an SD-JWT whose disclosures form a chain: the claims conceal
@@ -116,6 +162,9 @@ pub fn crash_probes(_tier: &str) -> Vec<String> {
 /// of a spawned Rust thread, i.e. what a tokio worker or a request handler has). Returns "accepted" / "error: .." when
 /// the library returns; a panic is reported as "panic: .."; a stack overflow ends the process with SIGABRT / SIGSEGV.
 pub fn run_crash_probe(name: &str) -> String {
+  if name.starts_with("refusals-under-memory-limit") {
+    return run_memory_probe(name);
+  }
   let links: usize = name.rsplit('-').next().and_then(|n| n.parse().ok()).unwrap_or(128);
   let mut issuer = Party::new("issuer", false, 0);
   let _ = issuer.gen_method("sign", Some(1));
@@ -405,16 +454,24 @@ pub fn run(_params: &Params) {
           }
         }
       }
-      // array element
+      // array element; one time in four EVERY element of the array (a holder who then discloses none of them presents
+      // an array of which nothing is left)
       if ctx::choose(2) == 0 {
-        let idx = ctx::choose(3);
-        if let Ok(d) = enc.conceal(&format!("/vc/credentialSubject/tags/{idx}"), salt()) {
-          ctx::stat("probe.array_disclosure");
-          concealed.push(Concealed {
-            cred_path: vec!["credentialSubject".into(), "tags".into(), idx.to_string()],
-            disclosure: d.to_string(),
-            parent: None,
-          });
+        let idxs: Vec<usize> = if ctx::choose(4) == 0 {
+          ctx::stat("probe.every_array_element_concealed");
+          vec![0, 1, 2]
+        } else {
+          vec![ctx::choose(3)]
+        };
+        for idx in idxs {
+          if let Ok(d) = enc.conceal(&format!("/vc/credentialSubject/tags/{idx}"), salt()) {
+            ctx::stat("probe.array_disclosure");
+            concealed.push(Concealed {
+              cred_path: vec!["credentialSubject".into(), "tags".into(), idx.to_string()],
+              disclosure: d.to_string(),
+              parent: None,
+            });
+          }
         }
       }
       // nested: child first, then (sometimes) its parent object
@@ -426,6 +483,20 @@ pub fn run(_params: &Params) {
             disclosure: d.to_string(),
             parent: None,
           });
+          // one time in three the only other member of the object is concealed too: a holder who discloses neither
+          // presents an object of which nothing is left
+          let mut second_child: Option<usize> = None;
+          if ctx::choose(3) == 0 {
+            if let Ok(d2) = enc.conceal("/vc/credentialSubject/address/country", salt()) {
+              ctx::stat("probe.every_member_of_an_object_concealed");
+              second_child = Some(concealed.len());
+              concealed.push(Concealed {
+                cred_path: vec!["credentialSubject".into(), "address".into(), "country".into()],
+                disclosure: d2.to_string(),
+                parent: None,
+              });
+            }
+          }
           if ctx::choose(2) == 0 {
             if let Ok(dp) = enc.conceal("/vc/credentialSubject/address", salt()) {
               ctx::stat("probe.nested_disclosure");
@@ -436,6 +507,9 @@ pub fn run(_params: &Params) {
                 parent: None,
               });
               concealed[child].parent = Some(parent);
+              if let Some(c2) = second_child {
+                concealed[c2].parent = Some(parent);
+              }
             }
           }
         }
